@@ -7,6 +7,7 @@ cd /repo || exit 2
 if ! git diff --quiet; then echo "/repo has uncommitted changes"; exit 2; fi
 for d in /verif/seeded/$1*/; do
   id=$(basename $d)
+  if [ -f $d/OBSOLETE ]; then echo "$id: OBSOLETE (no longer breaks the property on the repaired tree, see $d/OBSOLETE)"; continue; fi
   if git apply --check $d/patch.diff 2>/dev/null; then git apply $d/patch.diff
   elif git apply --3way $d/patch.diff >/dev/null 2>&1 && go build ./... 2>/dev/null; then git reset -q
   else git checkout -- . 2>/dev/null; git reset -q --hard HEAD >/dev/null; echo "$id: SKIP (patch no longer applies to the repaired tree)"; continue; fi
